@@ -16,14 +16,15 @@ RULE = ("Generated expression trees (recursive Hypothesis strategy, depth <= 6) 
         "statistics_from_samples of the composite == var/mean of the interpreter's per-sample values. Rejection cases: observable "
         "* observable -> ValueError, str/None/list/tensor operands -> TypeError, at build time. Non-trivial = depth >= 3 with a "
         "reflected operator (scalar - obs or scalar * obs) and a subtraction.")
-ASSUMPTIONS = ["rtol 1e-12 (+1e-12 absolute)", "numpy integer scalars are not Python ints and are not generated (the library documents int/float)"]
+ASSUMPTIONS = ["rtol 1e-12 (+1e-12 absolute); float scalars are 0 or >= 1e-3 in magnitude (no denormal-range products)", "numpy integer scalars are not Python ints and are not generated (the library documents int/float)"]
 
 LEAVES = ["SigmaX", "SigmaY", "SigmaZ", "SigmaZabs", "NI1", "NI2p", "SWAP0"]
 
 num = st.one_of(
     st.integers(-4, 4).map(lambda v: {"num": v, "kind": "int"}),
-    st.floats(-3, 3, allow_nan=False, width=64).map(lambda v: {"num": v, "kind": "float"}),
-    st.floats(-3, 3, allow_nan=False, width=64).map(lambda v: {"num": v, "kind": "npfloat"}),
+    # scalars are exactly 0 or at least 1e-3 in magnitude: products of denormal-range scalars underflow in ANY float64 arithmetic
+    st.floats(-3, 3, allow_nan=False, width=64).map(lambda v: {"num": 0.0 if abs(v) < 1e-3 else v, "kind": "float"}),
+    st.floats(-3, 3, allow_nan=False, width=64).map(lambda v: {"num": 0.0 if abs(v) < 1e-3 else v, "kind": "npfloat"}),
     st.sampled_from([{"num": 0, "kind": "int"}, {"num": 0.0, "kind": "float"}, {"num": -1, "kind": "int"}]))
 
 leaf = st.sampled_from(LEAVES).map(lambda n: {"leaf": n})
